@@ -61,6 +61,19 @@ t('C20', 'E3', 'exhaustive enumeration of operation histories on one envelope ob
   'Every history up to length 4 (quick) / 6 (thorough) over 7 operations from 3 start states, both formats, local and remote signer, each replayed on a fresh object; after every operation Verify and Content are called twice and compared with the machine (purity, no-signature when empty, content of the last successful signing equal to a fresh parse of the returned bytes, failed signing never observable). Closed-form history counts are checked.',
   'After a failed signing the model follows whichever allowed observation the object shows.')
 
+t('C01', 'E1', 'exhaustive application of seven mutation-operator classes to every base envelope with a signing ledger as oracle',
+  'Every single-bit flip, every prefix, every single-byte deletion and insertion, structural edits of the decoded container, every splice of a non-empty proper subset of {protected, payload, signature, chain} between every pair of entries, leaf substitutions, re-encodings and unsigned-part edits of every base envelope (independent encoder and library-signed; also entries signed by the intermediate / root / an unrelated key). If a mutant verifies, the ledger of everything the harness keys signed must hold an entry by the returned leaf key equal in all signed fields, re-verified with the standard library.',
+  'Cryptography is trusted (the harness holds every private key). Inputs further than one operator application from a base entry are not explored.')
+t('C09', 'E1', 'exhaustive byte-level neighbourhoods of every seed, all inputs of length <= 2, special inputs and the full product of hostile URL strings x answers x entry points, in crash-contained workers with a watchdog',
+  'Every prefix, single-bit flip and {00,01,7f,80,ff} substitution of envelopes, certificate and key files, an OCSP response, a base and a delta CRL; all inputs of length <= 2; ~30 special inputs (deep nesting, huge declared lengths); 22 hostile URL strings x 5 positions x 4 serial sizes x 7 answers x 4 entry points; 10 authentic-but-unusual CRL bundles. Every call runs on a watched goroutine (panic / 60 s watchdog) and the worker process is journalled so that a process death is confirmed in fresh processes.',
+  'The input space is infinite: only the stated neighbourhoods are decided. Coverage-guided fuzzing (sampling) is deliberately not used.')
+t('C15', 'E1', 'full-product enumeration of TSA behaviours x revocation-result vectors x configurations against an in-process RFC 3161 authority',
+  'A hand-written CMS/RFC 3161 authority behind tspclient HTTP timestamper with 35 behaviours x revocation validator {none, every vector over four results for the TSA chain, error, wrong-length vectors} x timestamper set/nil x both formats x both schemes x key specs; success iff the statement condition; embedded token byte-identical to the issued one; request imprint = H(signature) with the table hash; failures are TimestampError with no bytes; authority never contacted under signingAuthority or without a timestamper.',
+  'Caller-written Timestamper implementations and validators returning nil entries are outside the statement.')
+t('C18', 'E3', 'exhaustive enumeration of event histories on the real HTTPFetcher with scripted transport and cache, against a reference model of the fetcher',
+  'Every history up to depth 3 (quick) / 4 (thorough) over 17 events x {no cache, cache, cache+discard} x 13 freshest-CRL shapes; each fetch is judged from the request and cache-operation log against the statement (cached bundle only if effective in both parts, downloaded bundle written to the cache, delta iff advertised and from the first answering location, unobtainable delta is an error, cache faults are errors unless discarded, miss never an error, http only) and against a reference model.',
+  'A URI sharing a distribution-point name with a non-URI name is a recorded don\'t-care.')
+
 checks = []
 na = []
 for p in props:
@@ -79,7 +92,7 @@ for p in props:
             'technique': e['technique'],
         })
     else:
-        na.append({'property_id': i, 'reason': 'check not built yet in this round (designed in DESIGN.md §4 ' + i + '; model checking applies)'})
+        na.append({'property_id': i, 'reason': 'check not built yet (designed in DESIGN.md §4 ' + i + ')'})
 
 m = {
     'version': 1,
